@@ -593,32 +593,7 @@ func checkC10(c *Ctx, r *Report) {
 		}
 	}
 
-	// Prepare must install a fresh set on every call (a deferral lasts one session)
-	if fn := c.Func(pkg, "(*DirHandler).Prepare"); fn == nil {
-		r.Fail("C10-session", "anchor mailbox.(*DirHandler).Prepare not found")
-	} else {
-		resets := false
-		eachInstr(fn, func(_ *ssa.BasicBlock, _ int, in ssa.Instruction) {
-			st, ok := in.(*ssa.Store)
-			if !ok || !strings.HasSuffix(pathOf(st.Addr), ".deferred") {
-				return
-			}
-			if _, fresh := st.Val.(*ssa.MakeMap); !fresh {
-				return
-			}
-			all := true
-			for _, ret := range returnsOf(fn) {
-				if !instrDominates(in, ret) {
-					all = false
-				}
-			}
-			if all {
-				resets = true
-			}
-		})
-		r.Check("C10-session", fnName(fn), "Prepare resets the deferral set", c.pos(fn.Pos()), resets,
-			"a fresh map is stored on every path through Prepare", "Prepare does not install a fresh deferral set on every call: a message deferred in one session stays hidden in the next session on the same handler")
-	}
+	prepareResetRule(c, r, "C10-session")
 	// GetOutbound consults the set (checked per append in C10-route); SetDeferred adds to it
 	if fn := c.Func(pkg, "(*DirHandler).SetDeferred"); fn != nil {
 		adds := false
@@ -1231,4 +1206,36 @@ func sepCheck(call *ssa.Call, needBackslash bool) bool {
 		return false
 	}
 	return true
+}
+
+// prepareResetRule: Prepare installs a fresh deferral set on every call (a deferral lasts one
+// session; a handler is reused for the next session after a failed one).
+func prepareResetRule(c *Ctx, r *Report, rule string) {
+	const pkg = "mailbox"
+	// Prepare must install a fresh set on every call (a deferral lasts one session)
+	if fn := c.Func(pkg, "(*DirHandler).Prepare"); fn == nil {
+		r.Fail(rule, "anchor mailbox.(*DirHandler).Prepare not found")
+	} else {
+		resets := false
+		eachInstr(fn, func(_ *ssa.BasicBlock, _ int, in ssa.Instruction) {
+			st, ok := in.(*ssa.Store)
+			if !ok || !strings.HasSuffix(pathOf(st.Addr), ".deferred") {
+				return
+			}
+			if _, fresh := st.Val.(*ssa.MakeMap); !fresh {
+				return
+			}
+			all := true
+			for _, ret := range returnsOf(fn) {
+				if !instrDominates(in, ret) {
+					all = false
+				}
+			}
+			if all {
+				resets = true
+			}
+		})
+		r.Check(rule, fnName(fn), "Prepare resets the deferral set", c.pos(fn.Pos()), resets,
+			"a fresh map is stored on every path through Prepare", "Prepare does not install a fresh deferral set on every call: a message deferred in one session stays hidden in the next session on the same handler")
+	}
 }
